@@ -1,2 +1,3 @@
+pub mod cup;
 pub mod time;
 pub mod version;
